@@ -16,7 +16,7 @@ def prop(pid):
     return deco
 TESTED_ONLY = {
  'C01': ['the vertex-set reading (basis of exactly k+1 points, no two simplices sharing a basis) is proved for every history of in-contract operations (points, add by basis, deletions, restrict, renames) and for flag / Vietoris-Rips results; after add by faces with caller-supplied faces, subdivide, bulk add, compose: proved only for complexes on <= 4 points (kernel sweep); beyond that by the wf oracle after every step of every history. maxOrder = largest populated order is proved for every history of public operations'],
- 'C02': ['subdivide beyond 4 points; bulk add under a renaming; attribute read-back (oracle c02-pre/post); the vertex-set effects of add by basis, delete, delete by basis and restrict are proved for every complex that meets the vertex-set reading'],
+ 'C02': ['subdivide beyond 4 points; bulk add under a renaming; which simplex receives the attributes given to addSimplexWithBasis (oracle c02-pre/post); the vertex-set effects of add by basis, delete, delete by basis and restrict are proved for every complex that meets the vertex-set reading, the attribute frame of additions and deletions for every history'],
  'C03': ['d.d = 0 and boundary() of chains on complexes built out of contract (views oracle after every step); shapes, entries, cofaces = inverse of faces and basis = points of the closure are proved for every history, d.d = 0, boundary() = mod-2 sum and boundary of a boundary = [] for every complex that meets the vertex-set reading'],
  'C04': ['lookup by faces beyond 4 points; disjoint() beyond 3 points and for 4-tuples; returned names having the Python type they were created with (oracle c04); subsets / supersets / 2^(k+1)-1 members / lookup by basis are proved for every complex that meets the vertex-set reading, sortedness by order and the exclude_self / reverse variants of closureOf and partOf for every history'],
  'C05': ['continuation after a rejected call for requests with generated names / fresh dictionaries (twin-history oracle, up to generated names); atomicity of addSimplexWithBasis / relabel beyond the cases proved; a classification-complete invalid <=> rejected'],
